@@ -63,20 +63,19 @@ def regOfWith (s : St) (lo lir : Nat) (i : Nat) : Reg :=
 theorem regOfWith_eq (ir : List Inst) (i : Nat) :
     regOfWith (run ir) (lastOut ir) (lastInputRead ir) i = regOf ir i := rfl
 
-/-- the Go map `name : variable ↦ temporary`, as the list of (variable, temporary number) in
-    order of creation; the temporary number is `len(p.Temporaries)` at creation -/
-abbrev TMap := List (Nat × Nat)
+/-- the Go map `name : variable ↦ temporary`, as the list of variables in order of creation: the
+    temporary number of a variable is its position (`len(p.Temporaries)` at creation) -/
+abbrev TMap := List Nat
 
-def tlookup : TMap → Nat → Option Nat
-  | [], _ => none
-  | (v, k) :: r, w => if v = w then some k else tlookup r w
+/-- position of the first occurrence (the length when absent) -/
+def pos : List Nat → Nat → Nat
+  | [], _ => 0
+  | a :: r, v => if a = v then 0 else pos r v + 1
 
 /-- one iteration of the naming loop: only the `!ok` case changes the map -/
 def visit (rg : Nat → Reg) (A : TMap) (i : Nat) : TMap :=
   match rg i with
-  | .t v => match tlookup A v with
-    | some _ => A
-    | none => A ++ [(v, A.length)]
+  | .t v => if A.contains v then A else A ++ [v]
   | _ => A
 
 def buildA (rg : Nat → Reg) (idx : List Nat) : TMap := idx.foldl (visit rg) []
@@ -84,7 +83,7 @@ def buildA (rg : Nat → Reg) (idx : List Nat) : TMap := idx.foldl (visit rg) []
 def nameOf {α} (cfg : Cfg α) (A : TMap) : Reg → α
   | .x => cfg.input
   | .z => cfg.output
-  | .t v => cfg.temp ((tlookup A v).getD 0)
+  | .t v => cfg.temp (pos A v)
 
 def nameOp {α} (nm : Nat → α) : Op → NOp α
   | .add x y => .add (nm x) (nm y)
@@ -106,6 +105,20 @@ def allocateX {α} (cfg : Cfg α) (ir : List Inst) : Except String (List (NInst 
   let A := buildA rg (indexes ir)
   .ok (ir.map (nameInst fun i => nameOf cfg A (rg i)), tempsOf cfg A)
 
+/-- `CanonicalizeOperands` (run first by the allocator) refuses a program in which two operand
+    objects of one index carry different non-empty identifiers. `occ`: the (index, identifier)
+    pairs of all operands before allocation, "" = no identifier. -/
+def nameConflict (occ : List (Nat × String)) : Bool :=
+  occ.any fun p => p.2 != "" && occ.any fun q => q.1 == p.1 && q.2 != "" && q.2 != p.2
+
+/-- `Allocator.Execute` on a program whose operands may already carry identifiers (they are
+    cleared by `ClearNames` unless they conflict) -/
+def allocateN {α} (cfg : Cfg α) (ir : List Inst) (occ : List (Nat × String)) :
+    Except String (List (NInst α) × List α) :=
+  if ir.isEmpty then .error "allocator: program has no instructions"
+  else if nameConflict occ then .error "identifier conflict"
+  else allocateX cfg ir
+
 /-- number of variables the allocation created (`allocation.n`) -/
 def nVars (ir : List Inst) : Nat := (run ir).n
 
@@ -115,43 +128,52 @@ State: name ↦ value (`none` = not defined). Per instruction: `output()` first 
 register with value 0 when it is not defined), then the operands are loaded (an undefined one is
 an error), then the result is written into the output register. With aliasing the output name
 and the input name denote the same storage. -/
-abbrev RegsX (α : Type) := α → Option Int
+abbrev RegsX (α : Type) := List (α × Int)
 
 def cellX {α} [DecidableEq α] (cfg : Cfg α) (alias : Bool) (n : α) : α :=
   if alias ∧ n = cfg.output then cfg.input else n
 
-def updX {α} [DecidableEq α] (st : RegsX α) (c : α) (v : Int) : RegsX α :=
-  fun d => if d = c then some v else st d
+/-- value of register `c` (the most recent binding) -/
+def getX {α} [DecidableEq α] : RegsX α → α → Option Int
+  | [], _ => none
+  | (d, v) :: r, c => if c = d then some v else getX r c
 
-def readX {α} (st : RegsX α) (c : α) : Except String Int :=
-  match st c with
+def updX {α} (st : RegsX α) (c : α) (v : Int) : RegsX α := (c, v) :: st
+
+def readX {α} [DecidableEq α] (st : RegsX α) (c : α) : Except String Int :=
+  match getX st c with
   | some v => .ok v
   | none => .error "operand is not defined"
 
 /-- `Interpreter.output`: make sure the output register exists -/
 def touchX {α} [DecidableEq α] (st : RegsX α) (c : α) : RegsX α :=
-  match st c with
+  match getX st c with
   | some _ => st
   | none => updX st c 0
+
+/-- load the operands (an undefined one is an error) and compute the result -/
+def NOp.evalX {α} (rd : α → Except String Int) : NOp α → Except String Int
+  | .add x y =>
+    match rd x, rd y with
+    | .ok a, .ok b => .ok (a + b)
+    | .error e, _ => .error e
+    | _, .error e => .error e
+  | .dbl x =>
+    match rd x with
+    | .ok a => .ok (a + a)
+    | .error e => .error e
+  | .shl x s =>
+    match rd x with
+    | .ok a => .ok (a * 2 ^ s)
+    | .error e => .error e
 
 def execInstX {α} [DecidableEq α] (cfg : Cfg α) (alias : Bool) (st : RegsX α) (i : NInst α) :
     Except String (RegsX α) :=
   let c := cellX cfg alias i.out
   let st1 := touchX st c
-  match i.op with
-  | .add x y =>
-    match readX st1 (cellX cfg alias x), readX st1 (cellX cfg alias y) with
-    | .ok a, .ok b => .ok (updX st1 c (a + b))
-    | .error e, _ => .error e
-    | _, .error e => .error e
-  | .dbl x =>
-    match readX st1 (cellX cfg alias x) with
-    | .ok a => .ok (updX st1 c (a + a))
-    | .error e => .error e
-  | .shl x s =>
-    match readX st1 (cellX cfg alias x) with
-    | .ok a => .ok (updX st1 c (a * 2 ^ s))
-    | .error e => .error e
+  match i.op.evalX (fun n => readX st1 (cellX cfg alias n)) with
+  | .ok v => .ok (updX st1 c v)
+  | .error e => .error e
 
 def execX {α} [DecidableEq α] (cfg : Cfg α) (alias : Bool) :
     List (NInst α) → RegsX α → Except String (RegsX α)
@@ -162,7 +184,7 @@ def execX {α} [DecidableEq α] (cfg : Cfg α) (alias : Bool) :
     | .error e => .error e
 
 /-- initial state: only the input register is defined -/
-def initX {α} [DecidableEq α] (cfg : Cfg α) (v : Int) : RegsX α := updX (fun _ => none) cfg.input v
+def initX {α} (cfg : Cfg α) (v : Int) : RegsX α := updX [] cfg.input v
 
 /-! ### chain values by index, for an arbitrary input value -/
 def envV (v : Int) (pre : List Inst) : Nat → Int := pre.foldl stepVal (upd (fun _ => 0) 0 v)
